@@ -110,3 +110,43 @@ def tree_text(t, indent="  ", level=0):
         if v:
             out.append(tree_text(v, indent, level + 1))
     return "\n".join(x for x in out if x)
+
+
+def install_harness_deploy_driver():
+    """annet.deploy.get_deployer() needs a driver class; the harness one delegates apply_deploy_rulebook to the real
+    annet.deploy.apply_deploy_rulebook and returns empty configuration / exit command lists (as tests/annet/test_pc_deploy)"""
+    import annet.deploy
+    from annet.annlib.command import CommandList
+
+    class HarnessDeployDriver(annet.deploy.DeployDriver):
+        async def bulk_deploy(self, deploy_cmds, args, progress_bar=None):
+            raise NotImplementedError("the harness never deploys")
+
+        def apply_deploy_rulebook(self, hw, cmd_paths, do_finalize=True, do_commit=True):
+            return annet.deploy.apply_deploy_rulebook(hw, cmd_paths, do_finalize=do_finalize, do_commit=do_commit)
+
+        def build_configuration_cmdlist(self, hw, do_finalize=True, do_commit=True):
+            return CommandList(), CommandList()
+
+        def build_exit_cmdlist(self, hw):
+            return CommandList()
+
+    try:
+        annet.deploy.driver_connector.set(HarnessDeployDriver)
+    except RuntimeError:
+        annet.deploy.driver_connector._classes = [HarnessDeployDriver]
+
+
+def deploy_options(**kw):
+    """cli_args.DeployOptions with a ready Query (so that no storage connector is asked for one)"""
+    import os
+    from annet import cli_args
+    from annet.lib import get_template_context_path
+    from annet.storage import Query
+    os.environ.setdefault("ANN_CONTEXT_CONFIG_PATH", str(get_template_context_path()))
+
+    class HarnessQuery(Query):
+        @classmethod
+        def new(cls, query, hosts_range=None):
+            return cls()
+    return cli_args.DeployOptions(query=HarnessQuery(), **kw)
